@@ -22,6 +22,7 @@ mod c12;
 mod c13;
 mod c14;
 mod c15;
+mod c16s;
 mod c17;
 mod c19;
 mod c20;
@@ -109,6 +110,9 @@ fn main() {
     let _ = tier_from_cli;
     install_silent_panic_hook();
 
+    if id == "C16stress" {
+        std::process::exit(c16s::run(if tier == Tier::Thorough { 200_000 } else { 20_000 }));
+    }
     if id == "selftest" {
         std::process::exit(selftest::run());
     }
